@@ -2745,3 +2745,7 @@ impl Default for DhtNetworkConfig {
         }
     }
 }
+
+#[cfg(kani)]
+#[path = "/verif/kani/dht_network_manager_proofs.rs"]
+mod verif_proofs;
